@@ -212,6 +212,11 @@ func init() {
 			Misuse{Rule: "bytes_encoding_on_repeated_string", JSONRule: true, Offenders: []string{"Bad", "val"}, Build: func() ([]*spec.Message, []*spec.Enum) {
 				return []*spec.Message{spec.M("Bad", spec.F("val", "string").Rep().BEnc(spec.BytesB64URL))}, nil
 			}},
+			Misuse{Rule: "two_flattened_oneofs_colliding_children", JSONRule: true, Offenders: []string{"Bad"}, Build: func() ([]*spec.Message, []*spec.Enum) {
+				return []*spec.Message{spec.M("Bad", spec.F("id", "string"), spec.Msg("a_text", "Child").In("first"), spec.Msg("a_img", "Child").In("first"), spec.Msg("b_text", "Child").In("second"), spec.Msg("b_img", "Child").In("second")).
+					WithOneof(&spec.Oneof{Name: "first", Config: true, Disc: "a_type", Flatten: true}, &spec.Oneof{Name: "second", Config: true, Disc: "b_type", Flatten: true}),
+					child()}, nil
+			}},
 			Misuse{Rule: "flatten_on_optional_scalar", JSONRule: true, Offenders: []string{"Bad", "val"}, Build: func() ([]*spec.Message, []*spec.Enum) {
 				return []*spec.Message{spec.M("Bad", spec.F("val", "string").Opt().Flat())}, nil
 			}},
